@@ -218,6 +218,9 @@ pub struct World {
     pub root: Bytes,
     pub committed: Vec<Bytes>,
     pub inner: Vec<Bytes>,
+    /// does the harness' own description of the hash structure reproduce the real root? Where it does
+    /// not, only the oracles that do not depend on hashes are applied (see `eval_proof`).
+    pub reference_ok: bool,
 }
 
 pub fn outsider() -> Bytes {
@@ -226,20 +229,32 @@ pub fn outsider() -> Bytes {
 
 impl World {
     pub fn new(reference: RefNode) -> Result<World, String> {
-        let real = reference.to_real_map()?;
-        let root = real.compute_root().map_err(|e| e.to_string())?.to_vec();
+        // the real code may panic after a change: that is a failure to build, not a harness crash
+        let (real, root) = catch(|| -> Result<_, String> {
+            let real = reference.to_real_map()?;
+            let root = real.compute_root().map_err(|e| e.to_string())?.to_vec();
+            Ok((real, root))
+        })
+        .map_err(|p| format!("panic: {p}"))??;
         let mut committed = vec![];
         reference.committed(&mut committed);
         let mut inner = vec![];
         reference.inner(&mut inner);
-        Ok(World { reference, real, root, committed, inner })
+        let reference_ok = reference.root() == root;
+        Ok(World { reference, real, root, committed, inner, reference_ok })
+    }
+    /// what the accessor clause treats as committed: with a usable reference structure every leaf of
+    /// every tree of it; without one, everything but the value that is committed nowhere (map-level
+    /// entries can then not be told from foreign hashes, so they get the benefit of the doubt)
+    pub fn judged_committed(&self, x: &[u8]) -> bool {
+        if self.reference_ok { self.is_committed(x) } else { x != outsider().as_slice() }
     }
     pub fn is_committed(&self, x: &[u8]) -> bool {
         self.committed.iter().any(|c| c == x)
     }
     pub fn honest(&self, items: &[Bytes]) -> Result<RealProof, String> {
         let sel: Vec<MKTreeNode> = items.iter().map(|l| MKTreeNode::new(l.clone())).collect();
-        self.real.compute_proof(&sel).map_err(|e| format!("{e:#}"))
+        catch(|| self.real.compute_proof(&sel).map_err(|e| format!("{e:#}"))).map_err(|p| format!("panic: {p}"))?
     }
 }
 
@@ -330,6 +345,68 @@ fn check_level(p: &PMapProof, m: &RefNode, inner: &[Bytes], path: &str, out: &mu
     }
 }
 
+/// (1') the same walk without any hash of the reference structure: sub-proofs are followed by their
+/// keys, and only what a tree-level proof states about items is judged (used when the reference
+/// structure does not reproduce the real root, e.g. after a change of the hashing under test)
+fn check_level_by_keys(p: &PMapProof, m: &RefNode, all_bottom: &[Bytes], path: &str, out: &mut Vec<Finding>) {
+    match m {
+        RefNode::Tree(ls) | RefNode::Compressed(ls) => {
+            for (j, (pos, item)) in p.master_proof.inner_leaves.iter().enumerate() {
+                let idx = ls.iter().position(|l| *l == item.hash);
+                if idx.map(|i| *pos == leaf_pos(i as u64)).unwrap_or(false) {
+                    continue;
+                }
+                let shadowed = p.master_proof.inner_leaves[..j].iter().any(|(q, it)| q == pos && it != item);
+                let key = if shadowed {
+                    "C09/mkproof:entry-repeating-a-position-is-not-verified"
+                } else if idx.is_some() {
+                    "C09/mkproof:leaf-at-wrong-position"
+                } else if all_bottom.contains(&item.hash) {
+                    "C09/mkmap:item-under-wrong-key"
+                } else {
+                    "C09/mkproof:non-member-accepted"
+                };
+                out.push(Finding {
+                    key: key.into(),
+                    item: Some(item.hash.clone()),
+                    what: format!("at {path}: item {} is stated at position {pos} of the tree whose leaves are {:?}", hex::encode(&item.hash), ls.iter().map(hex::encode).collect::<Vec<_>>()),
+                });
+            }
+            for (k, sp) in &p.sub_proofs {
+                let mut items = vec![];
+                sp.stated_items(&mut items);
+                if !items.is_empty() {
+                    out.push(Finding {
+                        key: "C09/mkmap:sub-proof-below-a-tree-accepted".into(),
+                        item: items.first().cloned(),
+                        what: format!("at {path}: a sub-proof under key {} hangs below a tree, which has no keyed entries", String::from_utf8_lossy(&key_bytes(k))),
+                    });
+                }
+            }
+        }
+        RefNode::Map(es) => {
+            // the map-level entries are hashes: not judged here
+            for (k, sp) in &p.sub_proofs {
+                let here = format!("{path}/{}", String::from_utf8_lossy(&key_bytes(k)));
+                match es.iter().find(|(ck, _)| ck == k) {
+                    Some((_, cv)) => check_level_by_keys(sp, cv, all_bottom, &here, out),
+                    None => {
+                        let mut items = vec![];
+                        sp.stated_items(&mut items);
+                        if !items.is_empty() {
+                            out.push(Finding {
+                                key: "C09/mkmap:sub-proof-under-uncommitted-key".into(),
+                                item: items.first().cloned(),
+                                what: format!("at {here}: the map has no entry under that key, yet a sub-proof stating {} item(s) is attached there", items.len()),
+                            });
+                        }
+                    }
+                }
+            }
+        }
+    }
+}
+
 pub fn eval_proof<'a>(rep: &mut Report, w: &World, p: &PMapProof, label: impl Into<Label<'a>>, count_distinct: bool) -> Verdict {
     let label: Label = label.into();
     rep.eval();
@@ -398,11 +475,18 @@ pub fn eval_proof<'a>(rep: &mut Report, w: &World, p: &PMapProof, label: impl In
     }
 
     let mut findings = vec![];
-    check_level(p, &w.reference, &w.inner, "", &mut findings);
+    if w.reference_ok {
+        check_level(p, &w.reference, &w.inner, "", &mut findings);
+    } else {
+        let mut all_bottom = vec![];
+        w.reference.bottom_items(false, &mut all_bottom);
+        check_level_by_keys(p, &w.reference, &all_bottom, "", &mut findings);
+        rep.add_extra("mkmap_accepted_cases_judged_without_hash_dependent_clauses", 1);
+    }
     let any_keyed = !findings.is_empty();
     for f in findings {
         let set_too = match &f.item {
-            Some(it) if !w.is_committed(it) && set_accepts(vec![it.clone()]) => {
+            Some(it) if !w.judged_committed(it) && set_accepts(vec![it.clone()]) => {
                 rep.add_extra("mksetproof_accepts_uncommitted_item_too", 1);
                 " — MkSetProof::verify over that item succeeds as well"
             }
@@ -434,7 +518,7 @@ pub fn eval_proof<'a>(rep: &mut Report, w: &World, p: &PMapProof, label: impl In
         if !said {
             continue;
         }
-        if !w.is_committed(pr) {
+        if !w.judged_committed(pr) {
             if !stated.contains(pr) {
                 rep.violation(
                     "C09/mkmap:contains-accepts-item-the-proof-does-not-state",
@@ -458,7 +542,7 @@ pub fn eval_proof<'a>(rep: &mut Report, w: &World, p: &PMapProof, label: impl In
         rep.add_extra("observed_map_level_entries_accepted_by_contains", intermediate_accepted);
     }
     for l in catch(|| real.leaves()).unwrap_or_default() {
-        if !w.is_committed(&l) && !stated.contains(&l.to_vec()) {
+        if !w.judged_committed(&l) && !stated.contains(&l.to_vec()) {
             rep.violation(
                 "C09/mkmap:leaves-lists-item-the-proof-does-not-state",
                 format!("leaves() lists {} which no (sub-)proof states; proof made by: {label}", hex::encode(&*l)),
@@ -523,13 +607,18 @@ pub fn honest_sweep(reference: &RefNode) -> Report {
     let w = match World::new(reference.clone()) {
         Ok(w) => w,
         Err(e) => {
-            rep.machinery_error(format!("cannot build MKMap {}: {e}", reference.describe()));
+            // completeness is part of C09: a structure that cannot be committed has no verifying proof
+            rep.eval();
+            violation(&mut rep, "C09/mkmap:honest-proof-rejected", || {
+                (format!("the map {} cannot be built or its root computed: {e}", reference.describe()), json!({"part": "mkmap-honest", "structure": reference.to_json()}))
+            });
             return rep;
         }
     };
-    if reference.root() != w.root {
-        rep.machinery_error(format!("reference root differs from MKMap::compute_root for {}", reference.describe()));
-        return rep;
+    if !w.reference_ok {
+        // recorded, not fatal: the hash-dependent part of the oracle and the designed forgeries that
+        // need the reference structure are replaced / skipped for this structure
+        rep.add_extra("mkmap_structures_where_reference_structure_differs", 1);
     }
     let mut items = vec![];
     reference.bottom_items(true, &mut items);
@@ -748,8 +837,7 @@ pub fn mutations(c: &PMapProof, m: &Material) -> Vec<(String, PMapProof)> {
 pub fn mutation_sweep(reference: &RefNode, mask: u32, depth: usize, chunk: usize, chunks: usize) -> Report {
     let mut rep = Report::new("exploration", "");
     let Ok(w) = World::new(reference.clone()) else {
-        rep.machinery_error(format!("cannot build MKMap {}", reference.describe()));
-        return rep;
+        return rep; // reported by the honest sweep as a completeness violation
     };
     let m = material(&w);
     let mut items = vec![];
@@ -775,8 +863,103 @@ pub fn mutation_sweep(reference: &RefNode, mask: u32, depth: usize, chunk: usize
     rep
 }
 
+/// all one-place variants of a structure: one bottom item replaced by a value used nowhere else, or
+/// one key replaced by a key used nowhere else. Returns (what, variant, item to prove, key replaced?)
+fn one_place_variants(m: &RefNode, path: &str, fresh: &mut u64) -> Vec<(String, RefNode, Bytes, bool)> {
+    let mut out = vec![];
+    match m {
+        RefNode::Tree(ls) | RefNode::Compressed(ls) => {
+            for j in 0..ls.len() {
+                *fresh += 1;
+                let item = format!("6tx-never-used-{fresh}").into_bytes();
+                let mut l2 = ls.clone();
+                l2[j] = item.clone();
+                out.push((format!("item #{j} under {path} replaced by {:?}", String::from_utf8_lossy(&item)), RefNode::Tree(l2), item, false));
+            }
+        }
+        RefNode::Map(es) => {
+            for (i, (k, v)) in es.iter().enumerate() {
+                let here = format!("{path}/{}", String::from_utf8_lossy(&key_bytes(k)));
+                for (what, v2, item, is_key) in one_place_variants(v, &here, fresh) {
+                    let mut e2 = es.clone();
+                    e2[i].1 = v2;
+                    out.push((what, RefNode::Map(e2), item, is_key));
+                }
+                // the key itself
+                *fresh += 1;
+                let k2 = BlockRange::from((100_000 + 15 * *fresh)..(100_000 + 15 * (*fresh + 1)));
+                let mut below = vec![];
+                v.bottom_items(false, &mut below);
+                if let Some(item) = below.first() {
+                    let mut e2 = es.clone();
+                    e2[i].0 = k2.clone();
+                    out.push((format!("key {here} replaced by {}", String::from_utf8_lossy(&key_bytes(&k2))), RefNode::Map(e2), item.clone(), true));
+                }
+            }
+        }
+    }
+    out
+}
+
+/// Structure-independent soundness, through the real API only: the root of a map commits to every
+/// item of every sub-tree and to every key. If a one-place variant has the same root, the proof the
+/// real code generates from the variant is checked against the original root and, when it verifies, reported.
+pub fn root_commitment_sweep(reference: &RefNode) -> Report {
+    let mut rep = Report::new("exploration", "");
+    // root-only ranges are provable once given as trees; their root is the same
+    fn uncompress(m: &RefNode) -> RefNode {
+        match m {
+            RefNode::Compressed(ls) => RefNode::Tree(ls.clone()),
+            RefNode::Tree(ls) => RefNode::Tree(ls.clone()),
+            RefNode::Map(es) => RefNode::Map(es.iter().map(|(k, v)| (k.clone(), uncompress(v))).collect()),
+        }
+    }
+    let reference = uncompress(reference);
+    let Ok(w) = World::new(reference.clone()) else { return rep };
+    let mut fresh = 0u64;
+    for (what, variant, item, is_key) in one_place_variants(&reference, "", &mut fresh) {
+        rep.eval();
+        rep.nontrivial(&("map-root-commits", &reference, &what));
+        let Ok(w2) = World::new(variant.clone()) else {
+            rep.outcome("mkmap:root-commitment:variant-cannot-be-built");
+            continue;
+        };
+        if w2.root != w.root {
+            rep.outcome(if is_key { "mkmap:root-differs-when-a-key-is-replaced" } else { "mkmap:root-differs-when-an-item-is-replaced" });
+            continue;
+        }
+        rep.outcome(if is_key { "mkmap:root-unchanged-when-a-key-is-replaced" } else { "mkmap:root-unchanged-when-an-item-is-replaced" });
+        let confirmed = w2
+            .honest(&[item.clone()])
+            .ok()
+            .map(|p| catch(|| p.verify().is_ok() && p.compute_root().to_vec() == w.root && p.contains(&MKTreeNode::new(item.clone())).is_ok()).unwrap_or(false))
+            .unwrap_or(false);
+        if confirmed {
+            let key = if is_key { "C09/mkmap:root-does-not-commit-to-key" } else { "C09/mkmap:root-does-not-commit-to-leaf" };
+            violation(&mut rep, key, || {
+                (
+                    format!(
+                        "map {}: with {what} the root is unchanged, and the proof generated from the changed map for item {:?} verifies against the root of the original map, which does not contain that {}",
+                        reference.describe(),
+                        String::from_utf8_lossy(&item),
+                        if is_key { "key" } else { "item" }
+                    ),
+                    json!({"part": "mkmap-root", "structure": reference.to_json(), "variant": variant.to_json(), "what": what}),
+                )
+            });
+        } else {
+            rep.outcome("mkmap:root-unchanged-but-replacement-not-provable");
+        }
+    }
+    rep
+}
+
 pub fn replay(rep: &mut Report, v: &Value) {
     let reference = RefNode::from_json(&v["structure"]);
+    if v["part"] == "mkmap-root" {
+        rep.merge(root_commitment_sweep(&reference));
+        return;
+    }
     if v["part"] == "mkmap-honest" {
         rep.merge(honest_sweep(&reference));
         return;
